@@ -62,6 +62,7 @@ NAMED = {
     'K': ('TEMP', F(1)),
     'counts': ('COUNT', F(1)),
     'count': ('COUNT', F(1)),
+    'none': ('ONE', F(1)),
     'dimensionless': ('ONE', F(1)),
     'one': ('ONE', F(1)),
     '': ('ONE', F(1)),
@@ -217,3 +218,4 @@ def parse_unit(text: str) -> Unit:
 
 
 DIMENSIONLESS = Unit()
+NO_UNIT = Unit({'none': 1})  # scipp's unit=None
